@@ -37,7 +37,7 @@ class Gen:
         self.order = ["g"]
         self.txdef = {}            # tx name -> op (for copies)
         self.n = 0
-        self.opts = dict(p_tx=0.7, max_tx=3, p_copy=0.0, p_same_cb=0.0, p_fork=0.4, p_unusual=0.15, max_height=None, zero_rewards=False, p_deep_fork=0.0, deep_min=11, p_sibling=0.0, c05_extra_tags=None, p_big_block=0.0, p_extend_side=0.0,
+        self.opts = dict(p_tx=0.7, max_tx=3, p_copy=0.0, p_same_cb=0.0, p_fork=0.4, p_unusual=0.15, max_height=None, zero_rewards=False, p_deep_fork=0.0, deep_min=11, p_sibling=0.0, c05_extra_tags=None, p_big_block=0.0, p_extend_side=0.0, p_binary_cbdata=0.0,
                          prefix="", dts=None)
         self.opts.update(opts)
 
@@ -174,6 +174,10 @@ class Gen:
             op["txs"].append(t)
             fees += fee
         self._one_in = False
+        if self.opts.get("p_binary_cbdata") and self.r.random() < self.opts["p_binary_cbdata"]:
+            # the free-form data of the reward: arbitrary octets (not text), lengths around every size another field has
+            n_cb = self.r.choice([0, 1, 31, 32, 33, 58, 59, 60, 63, 64, 65, 127, 128, 199, 200, self.r.randrange(201)])
+            op["cbdata"] = [self.r.choice([0, 0x80, 0xFF, 0xFE, self.r.randrange(256)]) for _ in range(n_cb)]
         if self.opts["p_same_cb"] and self.r.random() < self.opts["p_same_cb"]:
             sibs = [self.L[l] for l in self.order if self.L[l].parent == p.label and self.L[l].miner is not None]
             if sibs:
